@@ -375,9 +375,9 @@ class T4IsoClf(object):
 
 
 class T4World(World):
-    def __init__(self, card, fwi=8):
+    def __init__(self, card, fwi=8, fsci=8, cmiu=253):
         self.card = card
-        self.inner = T4IsoClf(card, fwi=fwi)
+        self.inner = T4IsoClf(card, fwi=fwi, fsci=fsci, cmiu=cmiu)
         self.clf = FaultClf(self.inner)
         t = nfc.clf.RemoteTarget("106A")
         t.sens_res = bytearray.fromhex("4403")
